@@ -13,7 +13,7 @@ import (
 	"verif/gen"
 )
 
-var commentTexts = []string{" c", "", " then", " $x 'q", " 日本", "#", " a; b", "\t!"}
+var commentTexts = []string{" c", "", " then", " $x 'q", " 日本", "#", " a; b", "\t!", " ends with \\", "\\"}
 
 // layoutPolicy returns a randomised, grammar-preserving layout policy and the
 // list of comment texts it inserts (in source order).  plain=true: blanks
